@@ -785,7 +785,10 @@ def _steady_case(draw):
     return {"n": n, "family": family, "rows": _strings_from_rows(rows, n), "coef": coef, "shifts": shifts,
             "const": draw(st.lists(st.integers(-9, 9), min_size=n, max_size=n)),
             "names": [f"x{k}" for k in nums], "declared": list(draw(st.permutations(list(range(n))))),
-            "flat": draw(st.booleans())}
+            "flat": draw(st.booleans()),
+            # a steady plan with one swap: variable number `swap` is exogenized, the constant of the equation matched
+            # with it is endogenized (None: no plan)
+            "swap": draw(st.one_of(st.none(), st.integers(0, n - 1)))}
 
 
 def _steady_classify(case):
@@ -917,7 +920,61 @@ def _check_steady(case):
     bad = [(nm, g, float(r)) for nm, g, r in zip(names, got, ref) if not abs(g - r) <= tol]
     col.check(not bad, "steady:blockwise_solution_wrong", lambda: f"{show()}(name, got, reference) {bad[:4]}; blocks {blocks}")
     col.done()
-    return {"labels": [f"blaze_blocks_{_bucket(len(blocks))}"], "nontrivial": True}
+    labels = [f"blaze_blocks_{_bucket(len(blocks))}"]
+
+    # (e) the same with a steady plan that swaps a variable for a parameter: the unknowns are then the other variables
+    #     and the endogenized constant, whose column has its only incidence in its own equation
+    if case.get("swap") is not None:
+        s_ = case["swap"] % n
+        owner, _size = _matching(rows, n)
+        t_ = owner[s_]                                   # the equation matched with the exogenized variable
+        names_p = list(names)
+        names_p[s_] = f"c{t_}"
+        rows_p = [(r_ & ~(1 << s_)) | ((1 << s_) if i == t_ else 0) for i, r_ in enumerate(rows)]
+        m3 = api("steady:plan:from_string", ir.Simultaneous.from_string, src, flat=case["flat"])
+        api("steady:plan:assign", lambda: m3.assign(**{f"c{i}": float(case["const"][i]) for i in range(n)}))
+        fixed_value = 0.5 + float(ref[s_])
+        api("steady:plan:assign_exogenized", lambda: m3.assign(**{names[s_]: fixed_value}))
+        plan = ir.SteadyPlan(m3)
+        api("steady:plan:exogenize", plan.exogenize, names[s_])
+        api("steady:plan:endogenize", plan.endogenize, f"c{t_}")
+        showp = lambda: f"model\n{src}plan: exogenize {names[s_]}, endogenize c{t_}\n"  # noqa: E731
+        hbp = api("steady:plan:split_into_blocks", m3.split_into_blocks, plan)
+        try:
+            hbp_plain = [(tuple(b.equations), tuple(b.quantities)) for b in hbp]
+        except Exception as exc:  # noqa: BLE001
+            raise Violation("steady:plan:split_into_blocks:malformed_return", f"{type(exc).__name__}: {exc}")
+        blocks_p = _human_blocks_to_ids(col, "steady:plan:split_into_blocks", hbp_plain, names_p)
+        col.done()
+        _validate_blocks(col, "steady:plan:split_into_blocks", rows_p, n, ident, ident, blocks_p, showp)
+        col.done()
+        with contextlib.redirect_stdout(io.StringIO()):
+            infop = api("steady:plan:solve_steady", m3.solve_steady, plan=plan, split_into_blocks=True, return_info=True)
+        try:
+            solved_p = [(tuple(b["equations"]), tuple(b["quantities"])) for b in infop["blocks"]]
+        except Exception as exc:  # noqa: BLE001
+            raise Violation("steady:plan:solve_steady:malformed_info", f"{type(exc).__name__}: {exc}"[:600])
+        col.check(solved_p == hbp_plain, "steady:plan:solved_blocks_differ_from_split_into_blocks",
+                  lambda: f"{showp()}solved {solved_p}\nsplit_into_blocks {hbp_plain}")
+        # reference: unknowns x_j (j != s) and c_t
+        A_ = np.array(a, dtype=float)
+        M_ = A_.copy()
+        M_[:, s_] = 0.0
+        M_[t_, s_] = -1.0
+        rhs_ = np.array([float(c) for c in case["const"]]) - A_[:, s_] * fixed_value
+        rhs_[t_] = -A_[t_, s_] * fixed_value
+        refp = np.linalg.solve(M_, rhs_)
+        lev3 = api("steady:plan:get_steady_levels", m3.get_steady_levels)
+        par3 = api("steady:plan:get_parameters", m3.get_parameters)
+        gotp = [float(np.ravel(par3[f"c{t_}"])[0]) if j == s_ else float(np.ravel(lev3[names[j]])[0]) for j in range(n)]
+        tolp = 1e-7 * (1.0 + float(np.max(np.abs(refp))))
+        badp = [(names_p[j], gotp[j], float(refp[j])) for j in range(n) if not abs(gotp[j] - refp[j]) <= tolp]
+        col.check(not badp, "steady:plan:blockwise_solution_wrong", lambda: f"{showp()}(name, got, reference) {badp[:4]}; blocks {blocks_p}")
+        col.check(abs(float(np.ravel(lev3[names[s_]])[0]) - fixed_value) <= 1e-12 * (1 + abs(fixed_value)), "steady:plan:exogenized_value_changed",
+                  lambda: f"{showp()}{names[s_]} = {float(np.ravel(lev3[names[s_]])[0])!r}, assigned {fixed_value!r}")
+        col.done()
+        labels.append("plan_with_swap")
+    return {"labels": labels, "nontrivial": True}
 
 
 SUBCHECKS = [
